@@ -36,6 +36,10 @@ const string  PREFIXES = "(Y|Z|E|P|T|G|M|k|h|da|d|c|m|u|n|p|f|a|z|y)";
 const string  UNITS = "(mol|m|g|s|A|K|cd|Hz|N|Pa|J|Wb|W|C|V|F|Sv|S|T|H|lm|lx|Bq|Gy|kat|l|L|Ohm|%|dB|rad)";
 const string  POWER = "(\\^[+-]?[1-9]\\d*)";
 
+const map<string, int> PREFIX_EXPONENTS = {{"y", -24}, {"z", -21}, {"a", -18}, {"f", -15},
+    {"p", -12}, {"n", -9}, {"u", -6}, {"m", -3}, {"c", -2}, {"d", -1}, {"da", 1}, {"h", 2},
+    {"k", 3}, {"M", 6}, {"G", 9}, {"T", 12}, {"P", 15}, {"E", 18}, {"Z", 21}, {"Y", 24}};
+
 const map<string, double> PREFIX_FACTORS = {{"y", 1.0e-24}, {"z", 1.0e-21}, {"a", 1.0e-18}, {"f", 1.0e-15},
     {"p", 1.0e-12}, {"n",1.0e-9}, {"u", 1.0e-6}, {"m", 1.0e-3}, {"c", 1.0e-2}, {"d",1.0e-1}, {"da", 1.0e1}, {"h", 1.0e2},
     {"k", 1.0e3}, {"M",1.0e6}, {"G", 1.0e9}, {"T", 1.0e12}, {"P", 1.0e15}, {"E",1.0e18}, {"Z", 1.0e21}, {"Y", 1.0e24}};
@@ -289,17 +293,19 @@ double getSIScaling(const string &originUnit, const string &destinationUnit) {
     if ((org_prefix == dest_prefix) && (org_power == dest_power)) {
         return scaling;
     }
-    if (dest_prefix.empty() && !org_prefix.empty()) {
-        scaling = PREFIX_FACTORS.at(org_prefix);
-    } else if (org_prefix.empty() && !dest_prefix.empty()) {
-        scaling = 1.0 / PREFIX_FACTORS.at(dest_prefix);
-    } else if (!org_prefix.empty() && !dest_prefix.empty()) {
-        scaling = PREFIX_FACTORS.at(org_prefix) / PREFIX_FACTORS.at(dest_prefix);
+    // the factor is a power of ten: compute its decimal exponent exactly and let the
+    // decimal->binary conversion round once (a quotient of two rounded factors is off by an ulp)
+    int exponent = 0;
+    if (!org_prefix.empty()) {
+        exponent += PREFIX_EXPONENTS.at(org_prefix);
+    }
+    if (!dest_prefix.empty()) {
+        exponent -= PREFIX_EXPONENTS.at(dest_prefix);
     }
     if (!org_power.empty()) {
-        int power = std::stoi(org_power);
-        scaling = pow(scaling, power);
+        exponent *= std::stoi(org_power);
     }
+    scaling = std::stod("1e" + std::to_string(exponent));
     return scaling;
 }
 
